@@ -63,6 +63,9 @@ type Auto struct {
 	// WillReplies: the client answers WILLTOPICREQ / WILLMSGREQ with these.
 	WillTopic *snref.Pkt `json:"will_topic,omitempty"`
 	WillMsg   *snref.Pkt `json:"will_msg,omitempty"`
+	// CloseOnDisconnect: the broker closes the connection when it gets an MQTT DISCONNECT, as
+	// MQTT 3.1.1 tells a server to do [MQTT-3.14.4-1].
+	CloseOnDisconnect bool `json:"close_on_disconnect,omitempty"`
 }
 
 type Step struct {
@@ -507,6 +510,11 @@ func (s *Session) react(idx []int) bool {
 		}
 		for _, p := range mq {
 			s.BrokerSend(p, true)
+			sent = true
+		}
+		if s.auto.CloseOnDisconnect && e.Dir == GB && e.MQ != nil && e.MQ.Type == mqttref.DISCONNECT {
+			s.ev(Event{Dir: EV, What: "MQCLOSE (the broker got DISCONNECT)"})
+			s.MQ.Close()
 			sent = true
 		}
 		for _, p := range sn {
